@@ -53,7 +53,8 @@ def gen_config(rnd, *, seg=None, ndim=None, allow_optional=True, per_axis=True, 
         "pos_mode": "single",
         "tracklet_key": rnd.choice([None, None, "track_id", "tid"]),
         "lineage_key": rnd.choice([None, None, "lin"]),
-        "route": rnd.choice(["bare", "bare", "ids", "featuredict", "from_tracks", "from_tracks_ids"]),
+        "route": rnd.choice(["bare", "bare", "ids", "featuredict", "from_tracks", "from_tracks_ids",
+                             "from_tracks_partial_ids"]),
         "frames": rnd.randint(3, max_frames),
         "optional": [],
     }
@@ -149,7 +150,8 @@ def gen_init(rnd, cfg=None, *, max_nodes=10, need_edges=False) -> dict:
         if parent is not None:
             children[parent["id"]] = children.get(parent["id"], 0) + 1
     # parents that were skipped (frame full) cannot happen: parents are taken from ``nodes``
-    return {"cfg": cfg, "nodes": nodes, "id_offsets": [rnd.randint(0, 6), rnd.randint(0, 6)]}
+    return {"cfg": cfg, "nodes": nodes,
+            "id_offsets": [rnd.randint(0, 6) + (300 if rnd.random() < 0.2 else 0), rnd.randint(0, 6)]}
 
 
 def _place_boxes(rnd, shape, occ, near=None, thick=False):
@@ -264,7 +266,7 @@ class World:
                 g.add_edge(nd["parent"], nd["id"], **{CUSTOM_EDGE: nd[CUSTOM_EDGE]})
         tkey = cfg["tracklet_key"] or "track_id"
         lkey = cfg["lineage_key"] or "lineage_id"
-        if cfg["route"] in ("ids", "from_tracks_ids"):
+        if cfg["route"] in ("ids", "from_tracks_ids", "from_tracks_partial_ids"):
             # valid, non-contiguous ids already on the graph -> detected, not recomputed
             o1, o2 = init["id_offsets"]
             for i, cls in enumerate(sorted(refs.tracklets(g.nodes, g.edges), key=lambda c: min(c))):
@@ -290,7 +292,12 @@ class World:
         )
         with warnings.catch_warnings():
             warnings.simplefilter("ignore")
-            if cfg["route"] in ("from_tracks", "from_tracks_ids"):
+            if cfg["route"] == "from_tracks_partial_ids" and g.number_of_nodes():
+                # one node lost its ids: from_tracks must recompute all of them (over the old ones)
+                victim = sorted(g.nodes)[len(g) // 2]
+                g.nodes[victim].pop(tkey, None)
+                g.nodes[victim].pop(lkey, None)
+            if cfg["route"] in ("from_tracks", "from_tracks_ids", "from_tracks_partial_ids"):
                 # a plain Tracks object promoted to a solution (ids are computed by from_tracks)
                 from funtracks.data_model import Tracks
 
@@ -420,6 +427,15 @@ class World:
             out.action = ua.UserUpdateNodeAttrs(tr, op["node"], dict(op["attrs"]))
         elif kind == "paint":
             self._paint(op, out)
+        elif kind == "ctrl_add_nodes":
+            # the (deprecated) controller entry point: several nodes in one call, any order
+            from funtracks.data_model.tracks_controller import TracksController
+
+            attrs = {k: list(v) for k, v in op["attrs"].items()}
+            pixels = None
+            if op.get("pixels") is not None:
+                pixels = [tuple(np.asarray(a, dtype=np.int64) for a in px) for px in op["pixels"]]
+            TracksController(tr).add_nodes(attrs, pixels=pixels)
         elif kind == "undo":
             out.result = tr.undo()
         elif kind == "redo":
@@ -497,7 +513,7 @@ PROFILES = {
     "history": {"add_node": 2, "delete_node": 1, "add_edge": 2, "delete_edge": 1, "swap": 1,
                 "attrs": 2, "paint": 2, "undo": 6, "redo": 4},
     "paint": {"add_node": 1, "delete_node": 1, "add_edge": 2, "delete_edge": 1, "paint": 8,
-              "undo": 3, "redo": 1, "enable": 0.4, "disable": 0.4},
+              "undo": 3, "redo": 1, "enable": 0.4, "disable": 0.4, "ctrl_add_nodes": 0.7},
     "refusal": {"add_node": 4, "delete_node": 2, "add_edge": 4, "delete_edge": 2, "swap": 2,
                 "attrs": 2, "paint": 4, "undo": 1, "redo": 1},
     "features": {"add_node": 1, "delete_node": 1, "add_edge": 2, "delete_edge": 1, "attrs": 2,
@@ -654,6 +670,9 @@ def gen_op(world: World, rnd, weights: dict, refusal_bias: float = 0.08) -> dict
                 return op
             world.excluded["shape_reference_undefined"] = world.excluded.get("shape_reference_undefined", 0) + 1
         return {"op": "undo"}
+    if kind == "ctrl_add_nodes":
+        op = _gen_ctrl_add_nodes(world, rnd)
+        return op if op is not None else {"op": "undo"}
     if kind in ("undo", "redo"):
         return {"op": kind}
     if kind in ("enable", "disable"):
@@ -671,6 +690,8 @@ def _gen_track_id(world, rnd, t=None):
         return _pick(rnd, tids)
     if r < 0.8:
         return int(tr.get_next_track_id())
+    if r > 0.97:
+        return int(tr.get_next_track_id()) + 300  # ids beyond one byte (dtype choices downstream)
     return int(tr.get_next_track_id()) + rnd.randint(1, 6)
 
 
@@ -983,3 +1004,30 @@ def _busy_slot(world: World, rnd):
         if g.out_degree(u) == 2 and tv - 1 > tu:
             cands.append((tv - 1, int(g.nodes[v][world.tkey])))
     return _pick(rnd, cands) if cands else None
+
+
+def _gen_ctrl_add_nodes(world: World, rnd):
+    """2-3 new nodes in distinct frames, listed in random (not time) order, on background."""
+    tr = world.tracks
+    if tr.segmentation is None or world.frames < 2:
+        return None
+    k = rnd.randint(2, min(3, world.frames))
+    frames = list(range(world.frames))
+    rnd.shuffle(frames)
+    frames = frames[:k]
+    top = max(world.nodes() + [0])
+    nxt = int(tr.get_next_track_id())
+    ids, tids, pix = [], [], []
+    for i, t in enumerate(frames):
+        m = _background_box(world, rnd, t)
+        if m is None:
+            return None
+        idx = np.nonzero(m)
+        px = [np.full(len(idx[0]), t).tolist(), *[a.tolist() for a in idx]]
+        if not masks_defined(world, {"op": "add_node", "pixels": px}):
+            return None
+        ids.append(top + 1 + i)
+        tids.append(nxt + i)
+        pix.append(px)
+    attrs = {world.time_key: frames, world.tkey: tids, "node_id": ids, CUSTOM_REQ: [1] * k}
+    return {"op": "ctrl_add_nodes", "attrs": attrs, "pixels": pix}
